@@ -590,6 +590,10 @@ class Generator(object):
             self.havoc_names(s.scalars, s.arrays)
         elif isinstance(s, ArrCopy):
             self.out('__CPROVER_array_copy(%s, %s);' % (s.dst, s.src))
+            if self.opt.get('finite_ghosts') and s.ty == REAL:
+                self.globals_a[s.dst + '__fin'] = BOOL
+                self.globals_a[s.src + '__fin'] = BOOL
+                self.out('__CPROVER_array_copy(%s__fin, %s__fin);' % (s.dst, s.src))
         elif isinstance(s, MapAssign):
             self.map_assign(s)
         elif isinstance(s, Loop):
@@ -930,6 +934,15 @@ class Generator(object):
                 raise GenError('instantiation term %s mentions assigned variable(s) %s' % (self.p(t), bad))
 
     def render(self):
+        import re as _re
+        body_txt = '\n'.join(self.lines)
+        for m in _re.finditer(r'\b(\w+__fin)\b(\[)?', body_txt):
+            n = m.group(1)
+            if m.group(2):
+                if n not in self.globals_a:
+                    self.globals_a[n] = BOOL
+            elif n not in self.globals_s and n not in self.globals_a:
+                self.globals_s[n] = BOOL
         L = []
         L.append('/* generated by /verif/stv/gen.py -- do not edit.  harness for %s [%s] */' % (self.fn.key, self.cfgname))
         L.append('typedef __CPROVER_rational real;')
